@@ -36,6 +36,7 @@ void CanFdErrorFrame64::read(AbstractFile & is) {
     if (hasExtData())
         CanFdExtFrameData::read(is);
     // @note reservedCanFdExtFrameData is read here as CanFdExtFrameData doesn't know the objectSize
+    reservedCanFdExtFrameData.clear(); // calculateObjectSize() below must not count what the object held before
     reservedCanFdExtFrameData.resize(objectSize - calculateObjectSize());
     is.read(reinterpret_cast<char *>(reservedCanFdExtFrameData.data()), static_cast<std::streamsize>(reservedCanFdExtFrameData.size()));
 }
